@@ -338,7 +338,7 @@ static void compare_obs(Ctx &x, const OpInfo &oi, const Obs &got, const Obs &pre
     {
         bool bad = !obs_eq(got, exp, f), changed = oi.failed && !obs_eq(got, pre, f);
         if(!bad && !changed) continue;
-        if(oi.failed && f == O_TRACKS && oi.kind == K_MUSICBAD) { adopt(x.m, got, f); continue; }   // whether the old song survives a rejected load is not stated
+        if(oi.failed && f == O_TRACKS && oi.kind == K_MUSICBAD) { adopt(x.m, got, f); count("rejected_music_dropped_the_loaded_song"); continue; }   // whether the old song survives a rejected load is not stated
         std::string key = key_for(x, oi, obs_name[f], oi.targets.count(f) != 0, false, prev_t.count(f) != 0);
         x.violation(key, vfmt("%s: %s is %s after %s, model expects %s, before the call it was %s", oi.failed ? "call reported failure" : "call reported success / returns nothing", obs_name[f], obs_val(got, f).c_str(),
                               x.trail.back().c_str(), obs_val(exp, f).c_str(), obs_val(pre, f).c_str()));
@@ -424,7 +424,8 @@ static void probe_song(Ctx &x, const OpInfo &oi)
     uint64_t k0 = total_keyons(x.tap);
     double delay = 0, acc = 0, t_end = -1; bool ended = false; long guard = 0;
     // "without end" is watched over 6.5 passes (DESIGN.md section 7); a finite count must end within count + 2.5 passes
-    double tlimit = ((P < 0 ? 6.5 : (double)P + 2.5) * sd.seconds) / x.m.tempo;
+    // (a finite count is given the time of the slowest tempo multiplier in use, so that a lost multiplier is told from a lost count)
+    double tlimit = P < 0 ? 6.5 * sd.seconds / x.m.tempo : ((double)P + 2.5) * sd.seconds / std::min(x.m.tempo, 0.5);
     while(guard++ < 20000)
     {
         acc += delay;
@@ -443,27 +444,32 @@ static void probe_song(Ctx &x, const OpInfo &oi)
     bool prev_loop = x.prev_kind == K_LOOPEN || x.prev_kind == K_LOOPCOUNT || x.prev_kind == K_HOOKSONLY;
     std::string ctxs = vfmt("model: loop %s, count %ld, hooks-only %d, tempo x%g => %ld pass(es) of %ld note(s); observed %ld key-on(s), %s after %.3f s of driver time", x.m.loopEn ? "on" : "off", x.m.loopCount, x.m.hooksOnly,
                             x.m.tempo, P, per_pass, keyons, ended ? "ended" : "not ended", acc);
-    bool known = x.m.switches_known;
+    bool known = x.m.switches_known && per_pass > 0;
     long passes_by_time = ended ? (long)floor(t_end * x.m.tempo / sd.seconds + 0.5) : -1;
-    bool passes_bad = P >= 0 ? (!ended || passes_by_time != P) : ended;
-    bool notes_bad = !passes_bad && known && (P >= 0 ? keyons != P * per_pass : (keyons < 6 * per_pass || keyons > 7 * per_pass));
-    bool pass_bad = passes_bad || notes_bad;
+    bool passes_bad = false, notes_bad = false, tempo_bad = false;
+    if(P < 0) { passes_bad = ended; notes_bad = !ended && known && (keyons < 6 * per_pass || keyons > 7 * per_pass); }
+    else if(!ended) passes_bad = true;
+    else
+    {
+        bool time_ok = passes_by_time == P && fabs(t_end - (double)P * sd.seconds / x.m.tempo) <= 0.02 * t_end + 0.01;
+        if(!known) passes_bad = !time_ok;
+        else if(keyons == P * per_pass) tempo_bad = !time_ok;
+        else if(time_ok || keyons % per_pass != 0) notes_bad = true;
+        else passes_bad = true;           // driver time and key-ons both tell another number of passes
+    }
+    bool pass_bad = passes_bad || notes_bad || tempo_bad;
     if(pass_bad)
     {
-        // which part of the model is contradicted: the number of passes (or the tempo), or the notes per pass (track / channel switches)
+        // which part of the model is contradicted: the number of passes, the notes per pass (track / channel switches) or the tempo multiplier
         if(notes_bad) x.m.switches_known = false;
-        std::string field = passes_bad ? "loop-passes" : "track-or-channel-switches";
-        bool is_t = passes_bad ? (loop_target || oi.kind == K_TEMPO) : (oi.kind == K_TRACKOPT || oi.kind == K_CHANEN);
+        std::string field = passes_bad ? "loop-passes" : notes_bad ? "track-or-channel-switches" : "tempo";
+        bool is_t = passes_bad ? loop_target : notes_bad ? (oi.kind == K_TRACKOPT || oi.kind == K_CHANEN) : oi.kind == K_TEMPO;
+        bool prev_t = passes_bad ? prev_loop : notes_bad ? (x.prev_kind == K_TRACKOPT || x.prev_kind == K_CHANEN) : x.prev_kind == K_TEMPO;
         std::string key;
-        if(x.prev_kind == K_MUSICBAD && x.prev_failed && oi.kind == K_MUSIC && !oi.failed) key = "oracle:C18:rejected-music-broke-instance:valid-file-does-not-play-to-its-end";
-        else key = key_for(x, oi, field, is_t, false, passes_bad ? (prev_loop || x.prev_kind == K_TEMPO) : (x.prev_kind == K_TRACKOPT || x.prev_kind == K_CHANEN));
+        if(x.prev_kind == K_MUSICBAD && x.prev_failed && oi.kind == K_MUSIC && !oi.failed && passes_bad) key = "oracle:C18:rejected-music-broke-instance:valid-file-does-not-play-to-its-end";
+        else key = key_for(x, oi, field, is_t, false, prev_t);
         x.violation(key, "looped probe song: " + ctxs + " after " + x.trail.back());
-    }
-    else if(P >= 0 && ended)
-    {
-        double expect = (double)P * sd.seconds / x.m.tempo;
-        if(fabs(t_end - expect) > 0.02 * expect + 0.01)
-            x.violation(key_for(x, oi, "tempo", oi.kind == K_TEMPO, false, x.prev_kind == K_TEMPO), vfmt("looped probe song reached its end after %.4f s of driver time, expected %.4f s; %s", t_end, expect, ctxs.c_str()));
+        if(tempo_bad && t_end > 0) x.m.tempo = (double)P * sd.seconds / t_end;     // reported once: follow the implementation
     }
     // callbacks
     if(x.m.track_plays(0) || x.m.track_plays(1)) check_hook(x, oi, H_RAW, before, true, "raw events of the probe song"); else check_hook(x, oi, H_RAW, before, false, "probe song with all tracks muted");
@@ -842,7 +848,7 @@ static void step(Ctx &x, const Op &op)
     {
         if(expect_fail && rc >= 0 && op.kind != K_BANKBAD && op.kind != K_MUSICBAD)
             x.violation("oracle:C18:invalid-argument-accepted:" + oi.api, vfmt("%s returned %d for an argument documented to fail", x.trail.back().c_str(), rc));
-        if(!expect_fail && rc != 0)
+        if(!expect_fail && rc != 0 && !(op.kind == K_MUSIC && x.prev_failed && x.prev_kind == K_MUSICBAD))
             x.violation("oracle:C18:valid-argument-rejected:" + oi.api, vfmt("%s returned %d (%s)", x.trail.back().c_str(), rc, opn2_errorInfo(d)));
     }
     if(recreates && !oi.failed) x.fresh_chips = true;
@@ -852,6 +858,7 @@ static void step(Ctx &x, const Op &op)
     if(oi.failed)
     {
         x.n_failed++; count("failed_calls_checked");
+        if(op.kind == K_MUSICBAD && m.song >= 0) count("rejected_music_kept_the_loaded_song");
         if(op.kind == K_BANKBAD || op.kind == K_MUSICBAD) check_error_text(x, oi);
     }
     if(op.kind == K_BANKBAD || op.kind == K_BANK) check_banks_present(x, oi);
